@@ -17,10 +17,10 @@ import (
 )
 
 type Case struct {
-	Term T
-	Obs  T
-	Meta map[string]interface{}
-	Key  string // distinctness key for distinct_nontrivial (defaults to Term)
+	Term       T
+	Obs        T
+	Meta       map[string]interface{}
+	Key        string // distinctness key for distinct_nontrivial (defaults to Term)
 	Nontrivial bool
 }
 
@@ -73,7 +73,8 @@ func (o *Out) Emit(c Case) {
 	}
 }
 
-func (o *Out) Count(k string) { o.stats[k]++ }
+func (o *Out) Count(k string)         { o.stats[k]++ }
+func (o *Out) CountN(k string, n int) { o.stats[k] += n }
 
 type propFn func(o *Out, rng *Rng, tier string)
 
